@@ -47,6 +47,50 @@ CHECKS = {
             SIM + ": every soft-failed (abandoned) execution is followed by a fork comparison: world with the abandoned operation vs world without it under the same next operation",
             "Chain part: for each soft-failed execution the market state must be untouched and the next successful operation must produce identical market state in both worlds. The unit-level fault enumeration over the revertible buffer is a separate part (unitsim) once merged.",
             "depends on soft failures being reached (reach probe soft_failed_execution)", "§5 C21"),
+    "C02": ("exploration", "marketsim",
+            SIM + ": every fee-bearing report of simulated market histories (deposits, withdrawals, swaps, orders, liquidations) is split-checked against a BigInt reference; misconfiguration faults (> 100 % factors) must fail",
+            "Every deposit, withdrawal, swap, order and liquidation report produced by the real gmsol-model actions in seeded multi-party histories (own SimMarket with simulated clock and failing storage) is compared with an independent big-integer fee split; discounts are checked by fork (same order with discount 0 and d); > 100 % factors are injected as misconfiguration faults. Known finding: order fee factor > 100 % is not rejected.",
+            "inputs are those the simulation and its fault injection produce, not a uniform sweep of u128", "§5 C02"),
+    "C03": ("exploration", "marketsim",
+            SIM + ": per-operation imbalance-vs-impact-sign monitor on reached pool states, virtual-inventory clause, fork-and-reverse round-trip probe",
+            "Pool states come from simulated histories; per operation the sign of the reported impact is compared with the change of the pool imbalance, with virtual inventory the reported impact must be the worse of real/virtual and equal the real one when it is non-negative; forks apply a delta and its exact reverse. Known finding: cross-over rebalances (by design).",
+            "exact impact reference only for unit-multiple exponents; fractional exponents get the sign and round-trip oracles", "§5 C03"),
+    "C04": ("fault_enumeration", "marketsim",
+            SIM + ": ledger oracle on every swap of simulated histories plus exhaustive failure injection at every fallible storage call of each sampled swap",
+            "For each sampled swap the fallible calls n of a clean execution are counted and the swap is re-executed n times from the same snapshot failing call 1..n (pool accessors, parameter getters, checked_apply_delta): each must fail and leave the market bit-identical without the harness restoring it; successful swaps must move H_in by exactly the input and H_out by exactly the output.",
+            "exhaustive over fault points of the sampled swaps; sampling over market states", "§5 C04"),
+    "C05": ("exploration", "marketsim",
+            SIM + ": monitor on every swap report of simulated histories against a BigInt value bound including the impact actually funded by the impact pools",
+            "out x p_out.max <= in x p_in.min + value that left the swap impact pools (from pool deltas), and exact floor conversion with zero fees and impact, on every swap of seeded histories.",
+            "the funded-impact terms are priced generously so that the check can only be weaker than the statement", "§5 C05"),
+    "C06": ("exploration", "marketsim",
+            SIM + ": fork round-trip probes (deposit then withdraw everything at the same prices and time) on states reached by simulated histories, LP-value monitor on both legs, first-deposit pricing",
+            "At random points of seeded histories the world is forked, (x, y) deposited and everything minted withdrawn; USD out <= USD in, market-token value for other LPs never decreases beyond rounding on either leg, first deposit priced at 1 USD per token. Known findings: impact-pool bonus and ownerless value at zero supply (both by design).",
+            "cross valuations only without price spread and without a binding pnl cap", "§5 C06"),
+    "C32": ("exploration", "chainsim/scn-exchange",
+            SIM + ": builder-fee arithmetic evaluated through a cfg-guarded hook on the executed sizes, prices, increments and outputs of position orders in exchange histories; real settle_builder_fee with duplicated settlements on charges recorded by the simulator",
+            "At this commit every execution call site passes a builder fee factor of 0 (TODO(builder-fee)), so the charging path is unreachable from any instruction. The arithmetic (fee = ceil(size x factor / min price), increment split or failure, clamp to the output, withdrawal top-up and swap-type rejection) is evaluated on the values real executions produce; the charge is then written onto the order account (stub) and the real settlement instruction is run once or twice: it moves min(recorded, escrow), zeroes the record, and a repeat moves nothing.",
+            "the wiring between execution and the fee arithmetic does not exist yet and is therefore not covered", "§5 C32"),
+    "C40": ("translation_validation", "chainsim/scn-exchange",
+            SIM + ": every market account produced in exchange histories is decoded twice (program zero-copy struct vs SDK IDL type in MarketModel) and compared field by field through the model traits; executed fee updates, deposits and withdrawals are replayed on the SDK model under the simulated clock and compared with the program's post-state",
+            "Per landed transaction every market is decoded with both stacks (sizes, ~150 trait-visible fields, flags, meta, balances). For update_fees_state, deposits and withdrawals without swap paths the SDK MarketModel built from the pre-state bytes replays distribute-impact / update-funding / the action with the prices the program's own oracle accepted and must reach the same pools and minted / paid amounts.",
+            "the SDK model has no BorrowingFeeMarketMut, so the cumulative borrowing factor is compared at the decoding level only; position orders and swaps are not replayed; the order-fee-discount clause is C31", "§5 C40"),
+    "C45": ("exploration", "chainsim/scn-glv",
+            SIM + ": GLV histories (management, deposits, withdrawals, shifts) with lifecycle faults; composition, cap, exact pricing (BigInt from get_market_token_value on forks) and fork round-trip oracles",
+            "GLVs over 2-4 markets incl. attempts to insert foreign-token markets; after each deposit the market balance respects max_amount / max_value; minted and burned amounts equal the BigInt formulas with maximised / minimised GLV value; fork round trips never return more market tokens than deposited. Known finding: orphaned value when GLV supply is zero.",
+            "swap paths inside GLV actions and a second GLV in the same world are not covered", "§5 C45"),
+    "C36": ("exploration", "chainsim/scn-timelock",
+            SIM + ": interleaved timelock buffer lifecycles (create/approve/cancel/execute/increase-delay) with role changes between approval and execution, clock moves to eta-1/eta/eta+1, tx loss/duplication/delay, CPI-failure injection; lifecycle model + exactness of the instruction observed at the CPI boundary",
+            "Real timelock and store programs; 1-30 interleaved buffers of real store instructions (0-12 accounts, 0-200 data bytes, extra signers); the store admin revokes/re-grants the approver's role between approval and execution; execution is attempted before, at and after the delay in force; every execute's CPI (program id, accounts, signer/writable flags, data) is compared with what the plan buffered and only the executor wallet may sign.",
+            "RESTART_ADMIN interplay and multi-store look-alikes are not exercised", "§5 C36"),
+    "C37": ("exploration", "chainsim/scn-treasury",
+            SIM + ": full GT buyback flow (store GT exchange -> treasury deposit -> confirmation with oracle prices -> claims in scheduler-chosen order) with tx loss/duplication/delay, misconfiguration, dust, CPI failures; BigInt payout model",
+            "Real treasury and store programs end to end over 1-3 windows and 1-3 bank tokens; set_gt_factor/set_buyback_factor with values up to and above 100 %; every claim must pay floor(balance x gt_i / remaining) per token, never more than the bank holds, at least the floor share of the original balances, the last claim drains the bank, a second claim pays nothing.",
+            "Token-2022 bank tokens, treasury swaps and withdraw_from_treasury_vault are not covered; fees reach the receiver vault by direct mint", "§5 C37"),
+    "C38": ("exploration", "chainsim/scn-lp",
+            SIM + ": LP staking histories (stake, gradient updates, claims, partial/full unstakes, claim toggles, dust into position vaults) under clock jumps across week buckets, tx loss/duplication/delay and byzantine twins; BigInt reward schedule reference and fork monotonicity probes",
+            "Real liquidity-provider and store programs; rewards observed through the GT actually minted and bracketed by a BigInt evaluation of the weekly-bucket average (weeks past the last bucket use the last one); forks with larger stake value / longer cost integral must not earn less; partial unstakes return exactly the request and keep floor(value x remaining/old); full exits sweep the vault incl. dust; with claims disabled only full exits land; gradients above the 200 % cap are rejected.",
+            "stake_glv (GLV pricing CPI, Token-2022) is not covered; the private reward functions are observed through their on-chain effect only", "§5 C38"),
     "C09": ("exploration", "chainsim/scn-exchange",
             SIM + ": liquidation attempts by the keeper on live positions after price moves; a successful liquidation must close the whole position",
             "Chain part only: liquidations reached in exchange histories always remove the whole position. Health predicates (validate / check_liquidatable) and ADL are not yet covered here.",
